@@ -8,6 +8,8 @@
    Properties stated on this module: C01, C02, C07, C09, C10, C11, C15, C16 (see MC_Eval.tla). *)
 EXTENDS Builtins
 
+(* an index beyond TLC's integers is written <<"Index", 0, <<"huge", sign, k>>>>; it is out of range of every array *)
+HugeIndex(sign, k) == <<"Index", 0, HugeP(sign, k)>>
 RECURSIVE Outcomes(_, _), MapOut(_, _), EvEach(_, _), FilterOut(_, _, _), CallFn(_, _)
 
 (* apply r to every element, left to right; raw results (nulls kept); error-strict *)
@@ -68,7 +70,7 @@ Outcomes(e, v) ==
                              ELSE OkS(Null))
     [] k = "Flatten" -> Bind(LeftOf(e[2], v, TRUE), LAMBDA l : IF l[1] = "arr" THEN OkS(Arr(FlattenOnce(l[2]))) ELSE OkS(Null))
     [] k \in {"Identity", "CurrentNode"} -> OkS(v)
-    [] k = "Index" -> OkS(IF v[1] = "arr"
+    [] k = "Index" -> OkS(IF v[1] = "arr" /\ Len(e) = 2
                           THEN LET n == Len(v[2]) i == IF e[2] < 0 THEN e[2] + n ELSE e[2] IN
                                IF i >= 0 /\ i < n THEN v[2][i + 1] ELSE Null
                           ELSE Null)
@@ -87,7 +89,7 @@ Outcomes(e, v) ==
                              IF l[1] = "arr" THEN Bind(MapOut(e[3], l[2]), LAMBDA rs : OkS(Arr(DropNull(rs))))
                              ELSE OkS(Null))
     [] k = "Slice" -> IF v[1] = "arr"
-                      THEN IF HasP(e[2][3]) /\ e[2][3][2] = 0 THEN ErrS ELSE OkS(Arr(PySlice(v[2], e[2])))
+                      THEN IF HasP(e[2][3]) /\ PV(e[2][3], Len(v[2])) = 0 THEN ErrS ELSE OkS(Arr(PySlice(v[2], e[2])))
                       ELSE OkS(Null)
     [] k = "ValueProjection" -> Bind(LeftOf(e[2], v, TRUE), LAMBDA l :
                              IF l[1] = "obj"
